@@ -13,6 +13,14 @@ import (
 )
 
 func init() {
+	mutant(&Mutant{Name: "c08-copy-of-scan-cursor-read-after-rounding", Property: "C08", File: "common.go",
+		Old: "\t\tprecEnd := start + prec\n\t\tif dot == start { // for numbers like .012\n\t\t\tdigit := start + 1\n\t\t\tfor digit < end && num[digit] == '0' {\n\t\t\t\tdigit++\n\t\t\t}\n\t\t\tprecEnd = digit + prec\n", New: "\t\tprecEnd := start + prec\n\t\tif dot == start { // for numbers like .012\n\t\t\tdigit := start + 1\n\t\t\tfor digit < end && num[digit] == '0' {\n\t\t\t\tdigit++\n\t\t\t}\n\t\t\tprecEnd = digit + prec\n\t\t\tfirstDigit = digit\n",
+		Old2: "\tn := 0\n\tnormExp := 0\n\tif dot == start {\n\t\tfor i = dot + 1; i < end; i++ {\n\t\t\tif num[i] != '0' {\n\t\t\t\tn = end - i", New2: "\tn := 0\n\tnormExp := 0\n\tif dot == start {\n\t\ti = dot + 1\n\t\tif firstDigit != -1 {\n\t\t\ti = firstDigit\n\t\t}\n\t\tfor ; i < end; i++ {\n\t\t\tif num[i] != '0' {\n\t\t\t\tn = end - i",
+		More: [][2]string{{"\t// apply precision\n\tif 0 < prec { //&&", "\t// apply precision\n\tfirstDigit := -1\n\tif 0 < prec { //&&"}},
+		Rule: "R08.9", Construct: "copy firstDigit of scan cursor"})
+	mutant(&Mutant{Name: "c08-rounding-guard-one-sided", Property: "C08", File: "common.go",
+		Old: "if origExp < MinInt+len(num) || MaxInt-len(num) < origExp {", New: "if MaxInt-len(num) < origExp {",
+		Rule: "R08.12", Construct: "excluded for MinInt"})
 	register(&Property{
 		ID:    "C08",
 		Level: "other",
@@ -81,6 +89,7 @@ func runC08(c *Ctx) {
 	c.r089(pk)
 	c.r0810(pk)
 	c.r0811(pk)
+	c.r0812(pk)
 	for _, name := range []string{"Decimal", "Number"} {
 		fd := c.fn(r2, pk, name)
 		if fd == nil {
